@@ -252,6 +252,7 @@ func init() {
 		r.importing = "C06"
 		checkQuantifier(r, prog, a, "c06")
 		checkScan(r, prog, a, "c06")
+		checkWithLocalVariable(r, prog, "c06")
 		r.importing = "C07"
 		checkSelectorGrammar(r, ga, "c07")
 		checkSpellingBlind(r, prog, a, "c07")
